@@ -543,3 +543,33 @@ pub fn contract_violations(rec: &Rec, causes: &Causes) -> Vec<Violation> {
   }
   v
 }
+
+
+/// Two hash seeds under which a `HashMap<i32,_>` holding the keys 1 and 2
+/// iterates them in opposite orders (the order in which a Subject notifies
+/// its observers and `finalize` tears down upstreams depends on it).
+pub fn two_hash_seeds() -> (u64, u64) {
+  let order = |seed: u64| -> Vec<i32> {
+    rxverif_rt::exec::set_monitor_hash_seed(seed);
+    let mut m: rxverif_rt::collections::HashMap<i32, ()> = rxverif_rt::collections::HashMap::new();
+    m.insert(1, ());
+    m.insert(2, ());
+    let v: Vec<i32> = m.iter().map(|x| *x.0).collect();
+    rxverif_rt::exec::set_monitor_hash_seed(0);
+    v
+  };
+  let o0 = order(0);
+  for s in 1..64 {
+    if order(s) != o0 {
+      return (0, s);
+    }
+  }
+  (0, 0)
+}
+pub fn with_seed(mut s: Scn, seed: u64) -> Scn {
+  s.cfg.hash_seed = seed;
+  if seed != 0 {
+    s.name = format!("{} #h{}", s.name, seed);
+  }
+  s
+}
